@@ -363,6 +363,7 @@ for _t in REG.theorems:
          "time the bundle holds; 40 (quick) / 300 (thorough) bundles")
 def bounded_bundle_names(rng, tier):
     import warnings
+    warnings.filterwarnings("ignore", message="Discarding nonzero nanoseconds")
     import numpy as np
     import pandas as pd
     from contracts.C13 import _compact
@@ -419,4 +420,120 @@ def bounded_bundle_names(rng, tier):
             failures.append({"round": r, "members": k, "problem": "; ".join(problems)})
         elif len(samples) < 3:
             samples.append({"round": r, "members": k, "span": [str(t) for t in want]})
+    return {"evaluations": evals, "distinct_nontrivial": len(distinct), "failures": failures[:5], "samples": samples}
+
+
+# ------------------------------------------------------------------ bounded: collocate_filesets / Collocations.search end to end
+# (real worker processes, real queues, real files: what per-function contracts cannot decide, as a bounded stand-in)
+def _read_pickle(file_info, **kwargs):
+    import pickle
+    with open(file_info.path, "rb") as fh:
+        return pickle.load(fh)
+
+
+@bounded(P, "collocate-filesets-end-to-end", "two filesets of pickled xarray files in a temporary directory (primary hourly, secondary "
+         "half-hourly or 20-minute files over 3 hours crossing midnight, 1..6 points per file at 4 well separated sites, every point in "
+         "the file whose name covers its time), period cutting through the first and last file; processes 1..3, bundle None / 'primary' / "
+         "'daily', output to memory and to a Collocations fileset (files named by the span of what they hold, read back per sub-period): "
+         "the multiset of (primary id, secondary id) pairs must equal a brute-force search over all points; 3 (quick) / 36 (thorough) "
+         "configurations")
+def bounded_filesets(rng, tier):
+    import itertools
+    import logging
+    import os as _os2
+    import pickle
+    import shutil
+    import tempfile
+    import warnings
+    from collections import Counter
+    import numpy as np
+    import xarray as xr
+    from typhon.collocations import Collocations
+    from typhon.files import FileSet as _FS
+    from typhon.files.handlers.common import FileHandler
+    evals, failures, samples, distinct = 0, [], [], set()
+    day = datetime(2020, 1, 1, 22, 0)
+    max_interval, max_km = timedelta(minutes=10), 50.0
+
+    def make(root, name, minutes, id_name, first_id):
+        d = _os2.path.join(root, name)
+        _os2.makedirs(d)
+        points, k = [], first_id
+        for f in range(180 // minutes):
+            s = day + timedelta(minutes=minutes * f)
+            e = s + timedelta(minutes=minutes) - timedelta(seconds=1)
+            rows = []
+            for _ in range(rng.randint(1, 6)):
+                tm = s + timedelta(seconds=rng.randint(0, minutes * 60 - 1))
+                rows.append((k, tm, rng.randrange(4)))
+                k += 1
+            rows.sort(key=lambda r_: r_[1])
+            ds = xr.Dataset({"time": ("time", np.array([r_[1] for r_ in rows], dtype="M8[ns]")),
+                             "lat": ("time", np.zeros(len(rows))), "lon": ("time", np.array([10.0 * r_[2] for r_ in rows])),
+                             id_name: ("time", np.array([r_[0] for r_ in rows], dtype=int))})
+            with open(_os2.path.join(d, "%s-%s.pkl" % (s.strftime("%Y%m%d_%H%M%S"), e.strftime("%Y%m%d_%H%M%S"))), "wb") as fh:
+                pickle.dump(ds, fh)
+            points += rows
+        fs = _FS(path=_os2.path.join(d, "{year}{month}{day}_{hour}{minute}{second}-{end_year}{end_month}{end_day}_{end_hour}{end_minute}{end_second}.pkl"),
+                 handler=FileHandler(reader=_read_pickle), name=name)
+        return fs, points
+    configs = [(1, None, False), (2, "primary", False), (2, "daily", True)] if tier == "quick" else \
+        list(itertools.product([1, 2, 3], [None, "primary", "daily"], [False, True])) * 2
+    logging.disable(logging.CRITICAL)
+    root = tempfile.mkdtemp(prefix="c05_")
+    try:
+        data_sets = {}
+        for ci, (processes, bundle, to_files) in enumerate(configs):
+            di = 0 if tier == "quick" else ci // 18
+            if di not in data_sets:
+                r2 = _os2.path.join(root, "data%d" % di)
+                P_, pp = make(r2, "P", 60, "pid", 0)
+                S_, sp = make(r2, "S", rng.choice([30, 20]), "sid", 1000)
+                data_sets[di] = (P_, pp, S_, sp)
+            P_, pp, S_, sp = data_sets[di]
+            start, end = day + timedelta(minutes=17), day + timedelta(minutes=163)
+            truth = Counter((p[0], s[0]) for p in pp for s in sp
+                            if p[2] == s[2] and abs(p[1] - s[1]) < max_interval and start <= p[1] <= end and start <= s[1] <= end)
+            evals += 1
+            distinct.add((di, processes, bundle, to_files))
+            case = {"dataset": di, "processes": processes, "bundle": bundle, "output": "fileset" if to_files else "memory", "true_pairs": sum(truth.values())}
+            kwargs = dict(start=start, end=end, max_interval=max_interval, max_distance=max_km, processes=processes, bundle=bundle)
+
+            def pairs_of(ds):
+                pr = ds["Collocations/pairs"].values.astype(int)
+                return list(zip(ds["P/pid"].values[pr[0]].astype(int).tolist(), ds["S/sid"].values[pr[1]].astype(int).tolist(),
+                                ds["P/time"].values[pr[0]].astype("M8[us]").tolist()))
+            problems = []
+            try:
+                with warnings.catch_warnings():
+                    warnings.simplefilter("ignore")
+                    found = Counter()
+                    if not to_files:
+                        for ds, _attrs in Collocator().collocate_filesets([P_, S_], **kwargs):
+                            found.update((a, b) for a, b, _t in pairs_of(ds))
+                    else:
+                        out_dir = _os2.path.join(root, "out%d" % ci)
+                        out = Collocations(path=_os2.path.join(out_dir, "{year}{month}{day}_{hour}{minute}{second}-{end_year}{end_month}{end_day}_{end_hour}{end_minute}{end_second}.nc"),
+                                           read_mode="compact", name="out")
+                        out.search([P_, S_], **kwargs)
+                        for fn in sorted(_os2.listdir(out_dir)) if _os2.path.isdir(out_dir) else []:
+                            info = out.get_info(_os2.path.join(out_dir, fn))
+                            content = pairs_of(out.read(info))
+                            found.update((a, b) for a, b, _t in content)
+                            tms = [t_ for _a, _b, t_ in content]
+                            span = [min(tms).replace(microsecond=0), max(tms).replace(microsecond=0)]
+                            if list(info.times) != span:
+                                problems.append("file %s is named %s - %s but holds collocations from %s to %s" % (fn, info.times[0], info.times[1], span[0], span[1]))
+                    if found != truth:
+                        problems.append("pairs differ from the brute-force search: missing %s, surplus %s"
+                                        % (sorted((truth - found).elements())[:4], sorted((found - truth).elements())[:4]))
+            except Exception as exc:
+                problems.append("exception %r" % (exc,))
+            if problems:
+                failures.append(dict(case, problem="; ".join(problems)[:700]))
+            elif len(samples) < 3:
+                samples.append(case)
+    finally:
+        logging.disable(logging.NOTSET)
+        shutil.rmtree(root, ignore_errors=True)
     return {"evaluations": evals, "distinct_nontrivial": len(distinct), "failures": failures[:5], "samples": samples}
